@@ -116,7 +116,7 @@ def canon_desc(desc):
     m = re.match(r'^(&?)(\w+)((?:\.\w+)*)\.(\w+(?:<\w+>)?)$', desc)
     if m:
         amp, root, path, meth = m.groups()
-        if root == 'self':
+        if root == 'self' and path:
             return desc
         return '%s$%s.%s' % (amp, path, meth)
     return desc
